@@ -110,7 +110,7 @@ class MissingDriver:
                 try:
                     f()
                     rejected = False
-                except AttributeError:
+                except Exception:  # noqa: BLE001  - rejected, whatever the exception type
                     pass
             return dict(BASE, k="inspect", eq=(bool(MISSING == MISSING), not bool(MISSING != MISSING)),
                         pred=("none", "none", "falsy" if not MISSING else "truthy"),
